@@ -896,6 +896,7 @@ func init() {
 		e.c04DetailDef(s, srvgo, "WithTimeout", "withTimeoutOpt", lit1)
 		e.c04DetailDef(s, srvgo, "WithSSE", "withSSEOpt", lit1)
 		e.c04DetailDef(s, srvgo, "Server.AddRoutes", "serverAddRoutes", nil)
+		e.c04DetailDef(s, srvgo, "Server.AddRoute", "serverAddRoute", nil)
 		e.c04DetailDef(s, eng, "engine.addRoutes", "engAddRoutes", nil)
 		e.c04GuardedDef(s, eng, "newEngine", "engNewTimeout", []string{"timeout"})
 		e.c04GuardedDef(s, eng, "engine.buildChainWithNativeMiddlewares", "engTimeoutWiring", []string{"TimeoutHandler", "Timeout"})
